@@ -183,6 +183,11 @@ func readOnlyUse(v ssa.Value, seen map[ssa.Value]bool) (bool, ssa.Instruction, s
 				if com.Value == v && (m == "error.Error") {
 					continue
 				}
+				// io.Writer.Write must not modify the slice it is given, even temporarily (its documented contract, the
+				// stated assumption of C13): a package-level byte slice handed to it is only read
+				if m == "io.Writer.Write" && com.Value != v && isByteSlice(v.Type()) {
+					continue
+				}
 				return false, x, "is passed to interface method " + m
 			}
 			// a function value read from the variable is called: the call reads the table; a function literal written
